@@ -17,6 +17,8 @@ type genSet struct {
 	Name  string
 	Files []string // absolute paths
 	Args  []string // extra tl2gen arguments
+	// Ephemeral sets (random schemas) are generated and compiled inside this run's work directory, which is removed at exit
+	Ephemeral bool
 }
 
 const tls = "/repo/internal/tlcodegen/test/tls/"
@@ -108,6 +110,9 @@ func genBuild(s genSet) (string, error) {
 		wroot = "/var/tmp/verifwork"
 	}
 	W := filepath.Join(wroot, "gen", s.key())
+	if s.Ephemeral {
+		W = filepath.Join(workDir, "gen", s.key())
+	}
 	mod := filepath.Join(W, "verifrun")
 	if err := os.MkdirAll(filepath.Join(W, "pkg", "basictl"), 0o755); err != nil {
 		return "", err
@@ -187,6 +192,7 @@ func copyFile(src, dst string) error {
 }
 
 type gOpts struct {
+	QRand, TRand       int // number of random schema sets (see randset.go)
 	QSets, TSets       []string
 	QShards, TShards   int
 	QTimeout, TTimeout time.Duration
@@ -212,12 +218,37 @@ func genTest(o gOpts) func(id, tier string, seed int64, replay string) ([]unit, 
 		if to <= 0 {
 			to = 10 * time.Minute
 		}
-		var units []unit
-		for _, name := range sets {
-			s, ok := repoSets[name]
-			if !ok {
-				return nil, fmt.Errorf("unknown schema set %q", name)
+		nrand := o.QRand
+		if tier == "thorough" {
+			nrand = o.TRand
+		}
+		var chosen []genSet
+		if replay != "" && len(sets) == 1 && strings.HasPrefix(sets[0], "rnd") {
+			s, err := replayRandSet(replay, sets[0])
+			if err != nil {
+				return nil, err
 			}
+			chosen = append(chosen, s)
+		} else {
+			for _, name := range sets {
+				s, ok := repoSets[name]
+				if !ok {
+					return nil, fmt.Errorf("unknown schema set %q", name)
+				}
+				chosen = append(chosen, s)
+			}
+			if replay == "" {
+				for k := 0; k < nrand; k++ {
+					s, err := randSet(seed, k)
+					if err != nil {
+						return nil, err
+					}
+					chosen = append(chosen, s)
+				}
+			}
+		}
+		var units []unit
+		for _, s := range chosen {
 			bin := filepath.Join(workDir, s.Name+".test")
 			if _, err := os.Stat(bin); err != nil {
 				var err error
